@@ -190,7 +190,7 @@ theorem roundtrip3 (a b c x y z : Nat) (ha : isLower a) (hb : isLower b) (hc : i
     `a` = 97 and `0` = 48; separator "-r"; byte masks and shifts of the locale word; "\x00\x00"). -/
 theorem source_constants :
     Gen.LocaleConsts.unpackLanguageOrRegion
-      = [[], [0], [0x80], [1], [0x1F], [1], [0xE0], [5], [0], [0x03], [3], [0], [0x7C], [2],
+      = [[0], [0x80], [1], [0x1F], [1], [0xE0], [5], [0], [0x03], [3], [0], [0x7C], [2],
          [0], [0], [1], [1]]
     ∧ Gen.LocaleConsts.packLanguageOrRegion
       = [[97], [0], [0], [2], [0], [0], [1], [1], [3], [0], [0x7F], [1], [0x7F], [2], [0x7F],
